@@ -25,3 +25,4 @@ def check(ctx):
     tablefmt.check_snappy_literal(ctx)
     c01.check_table_get(ctx)
     tablefmt.check_separators(ctx)
+    tablefmt.check_filter_offsets(ctx)
